@@ -20,6 +20,8 @@ From FT Require Gen.History_gen Proofs.HistoryGen Props.C02.
 From FT Require Proofs.EditBook Proofs.EditWFNode.
 From FT Require Proofs.EditSessions Proofs.EditSessionsFull Proofs.EditSessionsAll Proofs.EditWFPaint Proofs.EditWFPaintRollback.
 From FT Require Gen.UserActions_gen Proofs.UserActionsTie.
+From FT Require Model.Toggle Proofs.EditInit.
+From FT Require Proofs.CoreTieBundle.
 Import ListNotations.
 Open Scope Z_scope.
 
@@ -241,6 +243,30 @@ Proof.
   exact FT.Proofs.UserActionsTie.gen_user_update_seg_eq.
 Qed.
 
+(* ---- ... and the start state need not be assumed well formed: for every valid RAW solution (a forward-in-time
+        binary forest whose nodes carry only a time - and, without a segmentation, a position -, labels and
+        nodes one-to-one, the feature table of a fresh Tracks, and the networkx oracle answers being the true
+        unbranched segments / weakly connected components: raw_ok), the state constructed by enabling the core
+        features with recomputation (Proofs/EditInit.v: construct, following Tracks.__init__ /
+        _setup_core_computed_features) is well formed, satisfies the configuration facts and has an empty
+        history; hence every session over the whole interface from it stays well formed. ---- *)
+Theorem C06_sessions_from_construction : forall r0 posk ctrk clin extra ops,
+  EditInit.raw_ok r0 posk ctrk clin ->
+  (forall k, In k extra -> In k (Toggle.available r0)) ->
+  EditSessionsAll.pre_along_all (EditInit.construct r0 ctrk clin extra) ops ->
+  forall pre post, ops = pre ++ post -> WF (run (EditInit.construct r0 ctrk clin extra) pre).
+Proof. exact EditInit.construct_session_WF. Qed.
+
+(* ---- one level further down: the queries (get_track_neighbors with its in-place sort, has_track_id_at_time,
+        next track / lineage id), the node-id counter, Tracks.undo / redo and the seven basic actions with their
+        inverses (__init__, _apply, the annotator notifications, the track-annotator bookkeeping and relabel
+        walk inlined) of the model equal the code translated on every run from data_model/solution_tracks.py,
+        data_model/tracks.py, annotators/_track_annotator.py and actions/*.py (Gen/Core_gen.v; translator
+        harness/translate_core.py, fail closed).  The statement is Proofs/CoreTieBundle.v: core_tie_statement.
+        Not translated (hand models): the regionprops / edge annotators' update, the bulk compute paths. ---- *)
+Theorem C06_core_is_generated : FT.Proofs.CoreTieBundle.core_tie_statement.
+Proof. exact FT.Proofs.CoreTieBundle.core_tie. Qed.
+
 Example C06_example_invariants : cfg_ok ex_state /\ rp_disjoint ex_state /\ W_book ex_state.
 Proof.
   split; [unfold cfg_ok; cbn; intuition|]. split; [intros k _ []|].
@@ -297,3 +323,5 @@ Print Assumptions C06_sessions.
 Print Assumptions C06_paint.
 Print Assumptions C06_run_paint_calls.
 Print Assumptions C06_user_actions_are_generated.
+Print Assumptions C06_sessions_from_construction.
+Print Assumptions C06_core_is_generated.
